@@ -65,6 +65,14 @@ fn variants(p: &Node, rng: &mut Rng, all_sites: bool) -> Vec<Variant> {
         push("free-spacing", format!("(?x){}", join_with(&toks, &mut |_| seps[r2.below(seps.len() as u64) as usize])), &base);
     }
     push("free-spacing", format!("(?x:{})", join_with(&toks, &mut |_| "  ")), &base);
+    // free spacing and (?#...) comments together
+    push("free-spacing+comment", format!("(?x) (?#a) {} (?#z) ", join_with(&toks, &mut |_| " (?# c ) ")), &base);
+    push("free-spacing+comment", format!("(?x)(?#a) (?#b)\n{}", join_with(&toks, &mut |i| if i % 2 == 0 { "(?#1) (?#2) " } else { "\n(?#3)\t" })), &base);
+    {
+        let seps = [" ", "(?#c) ", " (?#c)", "(?#c)(?#d)", "\n", " # l\n (?#c) "];
+        let mut r2 = rng.fork();
+        push("free-spacing+comment", format!("(?x){}", join_with(&toks, &mut |_| seps[r2.below(seps.len() as u64) as usize])), &base);
+    }
     // (?#...) comments
     let ptoks = p.tokens(&d);
     let comments = ["(?#c)", "(?#)", "(?# a\\)b (x )", "(?#|*+?{1})"];
@@ -123,6 +131,12 @@ fn pairs() -> Vec<(&'static str, &'static str)> {
         ("(?<n>a)?(?(<n>)b|c)", "(?<n>a)?(?('n')b|c)"),
         ("(a)?(?(1)b|c)", "(a)?(?(<1>)b|c)"),
         ("a", "\\x61"),
+        ("(?i)é", "(?i)\\xE9"),
+        ("(?i)é", "(?i)\\u00e9"),
+        ("(?i:café)", "(?i:caf\\x{e9})"),
+        ("ab", "(?x) a (?#1) (?#2) b"),
+        ("a|b", "(?x) a | (?# or ) b"),
+        ("ab+c", "(?x) a b (?# c ) + c"),
         ("[ab]", "[\\x61b]"),
         ("[\\x1b]", "[\\e]"),
         ("[0-9A-Fa-f]+", "\\h+"),
@@ -161,11 +175,69 @@ fn pairs() -> Vec<(&'static str, &'static str)> {
     ]
 }
 
+/// Comparable image of a tree. `Expr` is PartialEq but not Clone, so its Debug rendering is
+/// used; one normalisation: the case-insensitive flag of a literal without cased characters is
+/// dropped (`(?i:\\.)` parses with casei = false, `(?i:\\x2e)` with casei = true - the same
+/// expression, the flag has no meaning for ".").
+fn canon(e: &Expr, out: &mut String) {
+    match e {
+        Expr::Literal { val, casei } => {
+            let cased = val.to_lowercase() != val.to_uppercase();
+            out.push_str(&format!("Literal {{ val: {:?}, casei: {} }}", val, *casei && cased));
+        }
+        Expr::Concat(v) | Expr::Alt(v) => {
+            out.push_str(if matches!(e, Expr::Concat(_)) { "Concat([" } else { "Alt([" });
+            for c in v {
+                canon(c, out);
+                out.push_str(", ");
+            }
+            out.push_str("])");
+        }
+        Expr::Group(c) => {
+            out.push_str("Group(");
+            canon(c, out);
+            out.push(')');
+        }
+        Expr::AtomicGroup(c) => {
+            out.push_str("AtomicGroup(");
+            canon(c, out);
+            out.push(')');
+        }
+        Expr::LookAround(c, la) => {
+            out.push_str("LookAround(");
+            canon(c, out);
+            out.push_str(&format!(", {:?})", la));
+        }
+        Expr::Repeat { child, lo, hi, greedy } => {
+            out.push_str("Repeat { child: ");
+            canon(child, out);
+            out.push_str(&format!(", lo: {}, hi: {}, greedy: {} }}", lo, hi, greedy));
+        }
+        Expr::Conditional { condition, true_branch, false_branch } => {
+            out.push_str("Conditional { ");
+            canon(condition, out);
+            out.push_str(" ? ");
+            canon(true_branch, out);
+            out.push_str(" : ");
+            canon(false_branch, out);
+            out.push_str(" }");
+        }
+        // `\\h` / `\\H` never carry the flag, their spelled-out classes do; the classes contain both
+        // cases of every letter, so the flag has no meaning for them either
+        Expr::Delegate { inner, size, casei } => {
+            let closed = inner == "[0-9A-Fa-f]" || inner == "[^0-9A-Fa-f]";
+            out.push_str(&format!("Delegate {{ inner: {:?}, size: {}, casei: {} }}", inner, size, *casei && !closed));
+        }
+        other => out.push_str(&format!("{:?}", other)),
+    }
+}
+
 fn tree_of(s: &str) -> Got<(String, Vec<usize>)> {
-    // Expr: PartialEq but not Clone; its Debug rendering is a faithful, comparable image
     guard(|| {
         let t = Expr::parse_tree(s)?;
-        Ok((format!("{:?}", t.expr), t.backrefs.iter().collect()))
+        let mut img = String::new();
+        canon(&t.expr, &mut img);
+        Ok((img, t.backrefs.iter().collect()))
     })
 }
 
@@ -230,6 +302,18 @@ pub fn run(ctx: &Ctx) -> Outcome {
                     continue;
                 }
             }
+            // the same pair inside a case-insensitive scope (flags are parser state that every
+            // spelling of a literal has to honour)
+            if !v.pattern.starts_with("(?x)") {
+                let (bi, vi) = (tree_of(&format!("(?i:{})", base)), tree_of(&format!("(?i:{})", v.pattern)));
+                if bi != vi {
+                    let mut viol = Violation::new("C19", "tree-equality", &format!("(?i:{})", v.pattern), "", 0, "Expr::parse_tree", format!("the tree of {:?}: {}", format!("(?i:{})", base), bi.show()), vi.show());
+                    viol.note = format!("respelling family: {} inside (?i:..)", v.family);
+                    acc.violate(viol);
+                    continue;
+                }
+                acc.count("pairs-also-compared-inside-(?i:..)");
+            }
             // behaviour
             let Some(base_res) = &base_res else { continue };
             let re = match compile_with(&v.pattern, |b| {
@@ -292,7 +376,7 @@ pub fn run(ctx: &Ctx) -> Outcome {
     out.assumptions = vec!["named spellings of forward references do not exist (a named reference must follow its group); such variants are skipped and counted".into()];
     let nfam = fams.len();
     out.extra = json!({"families": fams});
-    out.require(nfam >= 14, "not all respelling families were exercised");
+    out.require(nfam >= 15, "not all respelling families were exercised");
     out
 }
 
